@@ -4,9 +4,10 @@ from common import *
 import decl, gen, pktcases, pktprops
 
 PID = 'C13'
-TARGETS = ['Properties/C13.vo', 'Model/Heap.vo', 'Proofs/HeapAdequacy.vo', 'Bridge/RefBridge.vo', 'Bridge/InitBridge.vo', 'Bridge/DataBridge.vo', 'Bridge/PlumbingBridge.vo', 'Bridge/MiscPacketBridge.vo']
-KERNELS = ['G8_data', 'G15_init', 'G15b_init_structural', 'G16_ref', 'G16b_optional', 'G16c_prototype', 'G17_builder', 'G20b_packet_misc']
+TARGETS = ['Properties/C13.vo', 'Model/Heap.vo', 'Proofs/HeapAdequacy.vo', 'Bridge/RefBridge.vo', 'Bridge/InitBridge.vo', 'Bridge/DataBridge.vo', 'Bridge/PlumbingBridge.vo', 'Bridge/MiscPacketBridge.vo', 'Bridge/DescBridge.vo']
+KERNELS = ['G8_data', 'G15_init', 'G15b_init_structural', 'G16_ref', 'G16b_optional', 'G16c_prototype', 'G17_builder', 'G20b_packet_misc', 'G7_auto']
 PROP_FILE = 'Properties/C13.v'
+WHOLE_PACKET = True      # Tie A over all of the pack / unpack machinery (check.py: WHOLE_PACKET_KERNELS)
 ASSUMPTIONS = ["partial: values of the model have no identity, so aliasing of mutable sub-objects and real thread interleavings (bytecode-level, "
                "under the GIL) are not exhibited by the model; they are checked on the implementation only (identity graph, write monitor, threads)"]
 # attribute writes on class-level field objects that are known and idempotent: the delimiter remembered by a delimited Data
@@ -170,7 +171,7 @@ def run(tier, seed, rng):
         payload_groups.append(dict(header=decl.HEADER_PY, blocks=G.blocks(), modname=f"c13_{gid}", histories=hs, threads=threads, solo=True))
         metas.append((table, hs))
     # ---- known findings as explicit probes
-    probes = dict(header=decl.HEADER_PY + "from bisturi.field import Data\n", modname="c13probe", blocks=[dict(name='probe', src='''
+    probes = dict(header=decl.HEADER_PY + "from bisturi.field import Data\nfrom bisturi.descriptor import AutoLength\n", modname="c13probe", blocks=[dict(name='probe', src='''
 class DelimX(Packet):
     body = Data(until_marker=re.compile(b'X+'))
     t = Int(1)
@@ -188,6 +189,17 @@ class Cnt(Packet):
 class Two(Packet):
     a = Ref(Cnt)
     b = Ref(Cnt)
+class Len(Packet):
+    length = Int(1).describe(AutoLength('a'))
+    a = Data(length)
+class LenL(Packet):
+    __bisturi__ = {'generate_for_pack': False, 'generate_for_unpack': False}
+    length = Int(1).describe(AutoLength('a'))
+    a = Data(length)
+class Box(Packet):
+    t = Int(1)
+    l = Ref(Len)
+    u = Int(1)
 ''')], histories=[
         [['parse', 'p0', 'DelimX', b'abXXX\x01'.hex()], ['parse', 'p1', 'DelimX', b'cdX\x02'.hex()]],
         [['parse', 'p0', 'Sel', b'\x03\x07'.hex()], ['parse', 'p1', 'Sel', b'\x03\x09'.hex()]],
@@ -196,6 +208,12 @@ class Two(Packet):
         # a delimiter that is not consumed: a packet built by the constructor, packed, then another packet of the class parsed
         [['new', 'p0', 'Hdr', {"p": "Hdr", "f": [["key", {"x": b'Host'.hex()}], ["val", {"x": b'example.org'.hex()}]]}], ['pack', 'p0'],
          ['parse', 'p1', 'Hdr', b'A::b\n'.hex()], ['pack', 'p0'], ['pack', 'p1']],
+        # described fields: serializing in between must not pin the computed value
+        [['new', 'p0', 'Len', {"p": "Len", "f": [["a", {"x": b'ab'.hex()}]]}], ['set', 'p0', ['a'], {"x": b'abcd'.hex()}], ['pack', 'p0'], ['set', 'p0', ['a'], {"x": b'q'.hex()}], ['pack', 'p0']],
+        [['parse', 'p0', 'Len', b'\x02ab'.hex()], ['set', 'p0', ['a'], {"x": b'abcd'.hex()}], ['pack', 'p0'], ['reparse', 'p1', 'p0'], ['set', 'p1', ['a'], {"x": b''.hex()}], ['pack', 'p1'], ['pack', 'p0']],
+        [['new', 'p0', 'LenL', {"p": "LenL", "f": [["a", {"x": b'ab'.hex()}]]}], ['set', 'p0', ['a'], {"x": b'abcd'.hex()}], ['pack', 'p0'], ['set', 'p0', ['a'], {"x": b'q'.hex()}], ['pack', 'p0']],
+        [['new', 'p0', 'Box', {"p": "Box", "f": [["t", 7]]}], ['set', 'p0', ['l', 'a'], {"x": b'xyz'.hex()}], ['pack', 'p0'], ['set', 'p0', ['l', 'a'], {"x": b'x'.hex()}], ['pack', 'p0'],
+         ['new', 'p1', 'Box', {"p": "Box", "f": []}], ['share', 'p1', ['l'], 'p0', ['l']], ['pack', 'p1'], ['set', 'p0', ['l', 'a'], {"x": b'12345'.hex()}], ['pack', 'p1'], ['pack', 'p0']],
     ], threads=dict(cls='Two', raws=[bytes([n] + list(range(n)) + [m] + list(range(m))).hex() for n in range(1, 5) for m in range(1, 3)],
                     rounds=300 if tier == 'quick' else 20000))
     parts = shard(payload_groups, max(1, len(payload_groups) // NPROC + 1))
@@ -216,6 +234,11 @@ class Two(Packet):
             if w[1] not in ALLOWED_ATTRS:
                 failures.append(dict(kind='oracle', sig='field-write', what=f"unpack/pack/construct wrote attribute {w[1]!r} on a {w[0]} field object shared by all packets of the class",
                                      classes=src))
+        ins = gres.get('inserted') or dict(n=0, bad=[])
+        dist['pack_insertion_histories'] = dist.get('pack_insertion_histories', 0) + ins['n']
+        for b in ins['bad']:
+            failures.append(dict(kind='oracle', sig='pack-insertion', what=f"pack() is not observationally pure: the same history with a pack() inserted after every operation differs at step {b['step']} (fields / raises / bytes of a later pack)",
+                                 classes=src, history=hs[b['history']], detail=b))
         sc = gres.get('scheduled') or dict(n=0, bad=[])
         dist['scheduled_histories'] = dist.get('scheduled_histories', 0) + sc['n']
         for b in sc['bad']:
@@ -329,11 +352,18 @@ class Two(Packet):
                                      model=[om[0]] + norm(om[1:]), implementation=[oi[0]] + norm(oi[1:])))
                 break
     pres = results[-1]['groups'][0]
-    names = ['D8 regex delimiter remembered on the shared field object', 'D9 a deferred selector returns the same packet object to every parse', None, None, None]
+    names = ['D8 regex delimiter remembered on the shared field object', 'D9 a deferred selector returns the same packet object to every parse', None, None, None, None, None, None, None]
     for h, rep, nm in zip(probes['histories'], pres['reports'], names):
         for r in rep:
             if r['kind'] in ('interference', 'shared-object', 'pack-impure'):
                 failures.append(dict(kind='oracle', sig=(nm or r['kind']), what=f"{r['kind']}: {json.dumps(r)[:300]}", history=h))
+    for key, sig, text in (('inserted', 'pack-insertion', 'pack() is not observationally pure: the same history with a pack() inserted after every operation differs'),
+                           ('scheduled', 'thread-schedule', 'the same history with every packet owned by its own thread differs from the single-threaded run')):
+        for b in (pres.get(key) or {}).get('bad', []):
+            h = probes['histories'][b['history']]
+            if h[0][2] in ('DelimX', 'Hdr'):
+                continue        # the D8 probes (class-level delimiter state): reported under their own name above
+            failures.append(dict(kind='oracle', sig=sig, what=f"{text} at step {b['step']}", classes=probes['blocks'][0]['src'], history=h, detail=b))
     th = pres['threads']
     dist['thread_rounds'] = th['threads'] * th['rounds']
     dist['thread_mismatches'] = th['n_bad']
